@@ -46,7 +46,7 @@ prop(
           "Ok and the histogram was compared"),
     assumptions=["BK=BA8, V=BA3, 256 buckets (the production instantiation); noise (DpMechanism) off - covered by C12",
                  "non-completion is decided by quiescence under tokio's paused clock (60 virtual seconds), not by wall time"],
-    builds={"quick": ["b1"], "thorough": ["b1", "b3"]},
+    builds={"quick": ["b1"], "thorough": ["b1", "b3", "b2"]},
     shards={"quick": 16, "thorough": 16},
     min_evaluations={"quick": 60, "thorough": 600},
     must_see=[("histogram_equal", 30), ("stages_logged", 4)],
@@ -191,7 +191,7 @@ prop(
     assumptions=["detection failure probability <= 2/|F| per run is ignored for the 32-bit and 255-bit fields"],
     shards={"quick": 16, "thorough": 16},
     min_evaluations={"quick": 150, "thorough": 1500},
-    must_see=[("deviation_detected", 100), ("step_families_faulted", 20), ("honest_runs_validated_and_opened", 5), ("lane_attack_detected", 5)],
+    must_see=[("deviation_detected", 100), ("step_families_faulted", 20), ("honest_runs_validated_and_opened", 5), ("lane_attack_detected", 5), ("reveal_flavours_faulted", 6), ("altered_copy_rejected", 30)],
     watchdog_s={"quick": 1200, "thorough": 7200},
 )
 
